@@ -169,7 +169,7 @@ def compare_req(ctx, sess, rm, text, verbatim=True, wd=None, what='Requirement')
 def impl_span_checks(ctx, entry, text, io):
     """C06 at the implementation: no panic; the error is renderable; the span starts on a boundary"""
     if io[0] == 'panic':
-        ctx.failure('%s panicked on %r: %s' % (entry, text, io[1]), {'entry': entry, 'input': text}, cls=panic_class(io[1]))
+        ctx.failure('%s panicked on %r: %s' % (entry, text, io[1]), {'entry': entry, 'input': text}, cls=panic_class(io[1], text))
         return False
     if io[0] == 'other':
         ctx.failure('%s: harness died / unexpected answer on %r: %s' % (entry, text, io[1]), {'entry': entry, 'input': text})
@@ -184,7 +184,8 @@ def impl_span_checks(ctx, entry, text, io):
     return True
 
 
-def panic_class(msg):
-    if 'u64' in msg or 'overflow' in msg or 'ParseIntError' in msg or 'PosOverflow' in msg:
+def panic_class(msg, text=''):
+    """F6d is identified by its call sites' message (arithmetic overflow) on an input with a u64::MAX segment"""
+    if 'overflow' in msg and '18446744073709551615' in text:
         return 'integer-overflow'
     return 'panic'
